@@ -171,8 +171,14 @@ func (p *party) SetShareData(shareData []byte) error {
 	if err != nil {
 		return fmt.Errorf("failed deserializing shares: %w", err)
 	}
+	if localSaveData.EDDSAPub == nil {
+		return fmt.Errorf("share data has no public key")
+	}
 	localSaveData.EDDSAPub.SetCurve(tss.Edwards())
-	for _, xj := range localSaveData.BigXj {
+	for j, xj := range localSaveData.BigXj {
+		if xj == nil {
+			return fmt.Errorf("share data has no public share for party %d", j)
+		}
 		xj.SetCurve(tss.Edwards())
 	}
 	p.shareData = &localSaveData
